@@ -2256,8 +2256,65 @@ fn sites_main(args: &[String]) {
     std::fs::write(&args[3], serde_json::to_string_pretty(&json!({"sites": all})).unwrap()).expect("write");
 }
 
+
+/// `vx dispatch <src_root> <out.json> <relative file>`: for every function of the file that binds
+/// `let mut solver: Box<dyn TRAIT<..>> = match semantics { .. }`, the table arm patterns -> first `Type::constructor` path of the arm
+fn dispatch_main(args: &[String]) {
+    let root = &args[2];
+    let rel = &args[4];
+    let p = std::path::Path::new(root).join(rel);
+    let text = std::fs::read_to_string(&p).unwrap_or_else(|e| die(&format!("cannot read {}: {}", p.display(), e)));
+    let parsed = syn::parse_file(&text).unwrap_or_else(|e| die(&format!("cannot parse {}: {}", p.display(), e)));
+    let mut tables = vec![];
+    for it in &parsed.items {
+        let f = match it { Item::Fn(f) => f, _ => continue };
+        for st in &f.block.stmts {
+            let l = match st { Stmt::Local(l) => l, _ => continue };
+            let (name, ty) = match &l.pat {
+                Pat::Type(pt) => match &*pt.pat { Pat::Ident(pi) => (pi.ident.to_string(), norm(&text[rng(pt.ty.span()).0..rng(pt.ty.span()).1])), _ => continue },
+                _ => continue,
+            };
+            if name != "solver" || !ty.starts_with("Box<dyn") { continue; }
+            let init = match &l.init { Some(i) => &i.expr, None => continue };
+            let m = match &**init { Expr::Match(m) => m, _ => continue };
+            let scrut = norm(&text[rng(m.expr.span()).0..rng(m.expr.span()).1]);
+            let mut arms = vec![];
+            for arm in &m.arms {
+                let pat = norm(&text[rng(arm.pat.span()).0..rng(arm.pat.span()).1]);
+                let mut finder = FirstCtor { found: None };
+                finder.visit_expr(&arm.body);
+                let line = text[..rng(arm.pat.span()).0].matches('\n').count() + 1;
+                arms.push(json!({"pattern": pat, "guard": arm.guard.is_some(), "ctor": finder.found, "line": line}));
+            }
+            tables.push(json!({"function": f.sig.ident.to_string(), "trait": ty, "scrutinee": scrut, "arms": arms}));
+        }
+    }
+    std::fs::write(&args[3], serde_json::to_string_pretty(&json!({"tables": tables})).unwrap()).expect("write");
+}
+
+struct FirstCtor { found: Option<String> }
+impl<'ast> Visit<'ast> for FirstCtor {
+    fn visit_expr_call(&mut self, c: &'ast syn::ExprCall) {
+        if self.found.is_none() {
+            if let Expr::Path(p) = &*c.func {
+                let segs: Vec<String> = p.path.segments.iter().map(|s| s.ident.to_string()).collect();
+                // `Box::new(X::ctor(..))`: look inside; `X::ctor(..)` with X a type name (upper-case initial): found
+                if segs.len() >= 2 && segs[segs.len() - 2] != "Box" && segs[segs.len() - 2].chars().next().map(|ch| ch.is_uppercase()).unwrap_or(false) {
+                    self.found = Some(segs[segs.len() - 2].clone());
+                    return;
+                }
+            }
+        }
+        visit::visit_expr_call(self, c);
+    }
+}
+
 fn main() {
     let args: Vec<String> = std::env::args().collect();
+    if args.len() == 5 && args[1] == "dispatch" {
+        dispatch_main(&args);
+        return;
+    }
     if args.len() >= 5 && args[1] == "sites" {
         sites_main(&args);
         return;
